@@ -55,9 +55,11 @@ def tiles_exactly(parent, kids):
     return None
 
 
-def c02_split(kind, K, parent_box, kid_boxes, kid_cpoints, call):
+def c02_split(kind, K, parent_box, kid_boxes, kid_cpoints, call, n_children=None):
     """All clauses of C02 for one real make_children call. Returns list of (sig, detail)."""
     out = []
+    if n_children is not None and n_children != len(kid_boxes):
+        out.append(("arity", f"the split cell reports {n_children} children, {len(kid_boxes)} were created"))
     d = len(parent_box)
     arity = {"binary": 2, "randBinary": 2, "dimBinary": 2 ** d, "kary": K, "randKary": K}[kind]
     if len(kid_boxes) != arity:
@@ -400,9 +402,7 @@ def tree_bandit_hooks(name):
         else:
             tau = S["tau_at_pull"]
             cnt = len(S["ledger"].get(nd._vid, []))
-            if tau is not None and abs(tau - round(tau)) > 1e-9:
-                if name == "VHCT":
-                    tau = None   # VHCT's threshold uses the variance at pull time; recomputed below
+            if tau is not None and abs(tau - round(tau)) > 1e-6:
                 if tau is not None:
                     should = S["was_leaf"] and cnt >= math.ceil(tau)
                     if should != expanded:
@@ -1054,7 +1054,9 @@ def vroom_hooks():
     def after_pull(ctx, t, pt):
         import PyXAB.algos.VROOM as VM
         case, a, part = ctx["case"], ctx["algo"], ctx["part"]
-        sd = a.search_depth
+        sd = int(a.n).bit_length() - 1            # floor(log2 n), exactly
+        if a.search_depth != sd:
+            case.fail("C13", "ranking-depth", f"cells are ranked down to depth {a.search_depth}, floor(log2 {a.n}) = {sd}", step=t, algo=name); return
         nl = part.get_node_list()
         weights = []
         for h in range(1, sd + 1):
@@ -1161,6 +1163,11 @@ def stroquool_hooks():
         nd = node_of_point_m(part, q)
         if nd is None or nd._vid not in S["since_reset"]:
             case.fail("C07", "recommendation-not-a-candidate", f"{q}", step="end", algo=name); return
+        for c in a.candidate:
+            rs = S["since_reset"].get(c._vid, [])
+            if rs and not mean_close(float(c.mean_reward), rs):
+                case.fail("C04", "validation-mean", f"candidate ({c.get_depth()},{c.get_index()}) holds mean {c.mean_reward!r}, its {len(rs)} validation rewards average {math.fsum(rs)/len(rs)!r}", step="end", algo=name)
+                break
         mean = lambda v: (math.fsum(S["since_reset"][v]) / len(S["since_reset"][v])) if S["since_reset"][v] else -math.inf
         best = max(mean(v) for v in S["since_reset"])
         if not rel_close(mean(nd._vid), best):
